@@ -210,7 +210,7 @@ def execute(case, script=None):
     ctx = RunCtx(PROP, None)
     ctx.CB_CAP = 10 ** 8
     ctx.declare_probes('reference_ok', 'env_prior', 'env_midrun', 'env_reuse', 'env_warm', 'env_abort', 'env_unpatched', 'injections',
-                       'aborts_delivered', 'seed_zero', 'string_keys', 'shipped_domain')
+                       'aborts_delivered', 'seed_zero', 'string_keys', 'shipped_domain', 'equally_seeded_pairs')
     sched = Scheduler(case['sched']['seed'], mode='P', cap=10 ** 9)
     ctx.sched = sched
     prng = sched.prng
@@ -232,6 +232,10 @@ def execute(case, script=None):
                   key=f"isolation/{comp}/{'+'.join(d)}")
         if 'result' in ref:
             ctx.probe('reference_ok')
+            for label, a_, b_ in (ref['result'].get('must_equal') or []):
+                ctx.probe('equally_seeded_pairs')
+                ctx.check(a_ == b_, 'reproducible', lambda: f"{label}: results differ: {_first_diff(a_, b_)}",
+                          key=f"reproducible/{comp}/equally-seeded-generators")
         refd = digest_of(ref.get('result', ref.get('exception')))
 
         def compare(out, envname):
